@@ -101,7 +101,19 @@ def build_ios(acl, raw):
     if raw:
         pre = [line(e) for e in raw if not e[2]]
         ap = [line(e) for e in raw if e[2]]
-        rawt = '\n'.join(['ip access-list extended E1x'] + pre + (['[APPEND]'] + ap if ap else []) + ['interface Ethernet1', ' ip access-group E1x in']) + '\n'
+        hdr = 'ip access-list extended E1x'
+        layout = sum(e[0] for e in raw) % 3
+        if layout == 0 or not pre:
+            # one block, the marker inside it
+            body = [hdr] + pre + (['[APPEND]'] + ap if ap else [])
+        elif layout == 1:
+            # the same ACL in a second block behind the marker
+            body = [hdr] + pre + (['[APPEND]', hdr] + ap if ap else [])
+        else:
+            # the ACL in several blocks in front of the marker too
+            k = max(1, len(pre) // 2)
+            body = [hdr] + pre[:k] + ([hdr] + pre[k:] if pre[k:] else []) + (['[APPEND]', hdr] + ap if ap else [])
+        rawt = '\n'.join(body + ['interface Ethernet1', ' ip access-group E1x in']) + '\n'
     device = 'interface Ethernet1\n ip address 10.0.6.1 255.255.255.0\n'
     return dict(model='IOS', device=device, netspoc='\n'.join(nl) + '\n', raw=rawt), texts
 
